@@ -245,7 +245,7 @@ class Run(RunBase):
         if k == "sc_remove_intruder":
             return len(op["ids"]) > 0 and len(set(op["ids"])) == len(op["ids"]) and \
                 all(i in a[part[op.get("kind", "lanelet")]] for i in op["ids"])
-        if k == "cleanup":
+        if k in ("cleanup", "lookups"):
             return True
         if k == "edit":
             if op["a"] not in a["L"]:
@@ -470,6 +470,27 @@ class Run(RunBase):
         self._check(op)
         return "ok"
 
+    def _op_lookups(self, op):
+        """Read-only look-ups of the network (they may fill memos / reverse indices): later edits and removals must not
+        be answered from what these look-ups left behind."""
+        net = self.net
+        self.last = "read-only look-ups"
+        try:
+            for x in net.traffic_signs:
+                net.get_traffic_sign_referenced_lanelets(x.traffic_sign_id)
+            for x in net.traffic_lights:
+                net.get_traffic_lights_referenced_lanelets(x.traffic_light_id)
+            net.map_inc_lanelets_to_intersections  # noqa
+            for it in net.intersections:
+                it.map_incoming_lanelets  # noqa
+            for la in net.lanelets[:3]:
+                la.find_lanelet_successors_in_range(net, 30.0)
+        except Exception as e:  # noqa
+            raise Violation(f"C10/lookup-raised/{self.last}", f"{self.last} raised {type(e).__name__}: {e}")
+        self.probe("read-only-lookups-between-edits")
+        self._check(op)
+        return "ok"
+
     def _op_cleanup(self, op):
         """The public clean-up methods on a network that has nothing to clean: nothing changes."""
         self.last = "LaneletNetwork.cleanup_*_references"
@@ -690,7 +711,7 @@ def _editor(rng, run, cfg):
         a = run.m.a
         L = sorted(a["L"])
         if not L or rng.chance(0.3):
-            yield {"op": "cleanup"}
+            yield {"op": rng.choice(["cleanup", "lookups", "lookups"])}
             continue
         how = rng.pick(["add_successor", "add_predecessor", "remove_successor", "remove_predecessor",
                         "add_traffic_sign_to_lanelet", "add_traffic_light_to_lanelet"])
@@ -746,7 +767,7 @@ class C10(Property):
                        "cut-out-by-shape-partial", "cut-out-by-type-partial", "restart-pickle", "restart-deepcopy",
                        "cut-out-keeps-source-alive", "continued-on-the-other-network", "removal-of-absent-id",
                        "cut-out-shape-exactly-tangent-to-lanelet", "list-removal-interrupted",
-                       "map-edited:add_successor", "map-edited:add_traffic_sign_to_lanelet", "cleanup-on-a-consistent-network",
+                       "map-edited:add_successor", "map-edited:add_traffic_sign_to_lanelet", "cleanup-on-a-consistent-network", "read-only-lookups-between-edits",
                        "removed-by-an-equal-copy"]
     assumptions = [
         "networks are well formed: every reference names an existing element and a stop line refers only to signs and "
